@@ -752,6 +752,11 @@ def gen_jobs(ctx, n_jobs, long_small=0):
             job["backend"] = "dm"
         if i % 11 == 7:
             job["det"] = "p"
+        if solver == "evo" and i % 8 == 2:
+            # the public `circuit=` argument: population_initialization copies one given circuit n_pop times; the circuit is
+            # built by the solver's own transformations and has large node ids
+            job["bump"] = rng.randrange(1, 10 ** 6)
+            job["bump_steps"] = rng.randrange(10, 60)
         jobs.append(job)
     for i in range(long_small):
         jobs.append({"solver": "evo", "graph": rng.choice(["p2", "p3"]), "n_emitter": 1, "n_hof": rng.randrange(2, 7), "n_pop": rng.randrange(4, 11),
